@@ -268,15 +268,22 @@ example : (exVar.argToks defaultEnv true).bind (cMeaning defaultEnv)
 /-! ### witnesses of the open findings (outside `WF`): Shroud's reading differs from C++ -/
 
 open Shroud.Gen.DeclTables Shroud.Cxx in
-/-- `unsigned long size_t` (finding `meaning:name-is-a-type`): C++ declares a variable named
-    size_t of type unsigned long; Shroud records an unnamed declaration of type size_t -/
+/-- `unsigned long size_t` (former finding `meaning:name-is-a-type`, fixed by c918081): a variable
+    named size_t of type unsigned long for C++ and, now, for Shroud too (outside `WF`: the name is
+    also a type name) -/
 example :
     cxxMeaning defaultEnv [tk .TYPE_SPECIFIER "unsigned", tk .TYPE_SPECIFIER "long", tk .ID "size_t"]
       = some (some (sp "size_t"), .base false false (.fund (sp "unsigned long")))
     ∧ (match parse defaultEnv [tk .TYPE_SPECIFIER "unsigned", tk .TYPE_SPECIFIER "long", tk .ID "size_t"] with
-       | .ok d => (denote defaultEnv d, declName d) = (some (.base false false (.named (sp "size_t"))), none)
+       | .ok d => (denote defaultEnv d, declName d)
+            = (some (.base false false (.fund (sp "unsigned long"))), some (sp "size_t"))
        | _ => False) := by
   constructor <;> rfl
+
+open Shroud.Gen.DeclTables in
+/-- `size_t int x` (former finding `typename-plus-specifier`, fixed by 462fc2a) is a parse error -/
+example : parse defaultEnv [tk .ID "size_t", tk .TYPE_SPECIFIER "int", tk .ID "x"]
+    = .reject "type specifier 'int' cannot be combined with the type name 'size_t'" := by rfl
 
 open Shroud.Gen.DeclTables Shroud.Cxx in
 /-- `int ( )` (finding `meaning:abstract-function-parens`): a function type in C++, plain `int` for Shroud -/
